@@ -9,9 +9,11 @@ mod c02;
 mod c03;
 mod c04;
 mod c05;
+mod c06;
 mod c07;
 mod c08;
 mod c09;
+mod c13;
 mod tree;
 mod c16;
 
@@ -65,9 +67,11 @@ fn main() {
             "C03" => c03::replay(case, &mut rep),
             "C04" => c04::replay(case, &mut rep),
             "C05" => c05::replay(case, &mut rep),
+            "C06" => c06::replay(case, &mut rep),
             "C07" => c07::replay(case, &mut rep),
             "C08" => c08::replay(case, &mut rep),
             "C09" => c09::replay(case, &mut rep),
+            "C13" | "C14" => c13::replay(id, case, &mut rep),
             "C16" => c16::replay(case, &mut rep),
             _ => {
                 eprintln!("no replay for {id}");
@@ -81,9 +85,11 @@ fn main() {
             "C03" => c03::run(tier, &mut rep),
             "C04" => c04::run(tier, &mut rep),
             "C05" => c05::run(tier, &mut rep),
+            "C06" => c06::run(tier, &mut rep),
             "C07" => c07::run(tier, &mut rep),
             "C08" => c08::run(tier, &mut rep),
             "C09" => c09::run(tier, &mut rep),
+            "C13" | "C14" => c13::run(id, tier, &mut rep),
             "C16" => c16::run(tier, &mut rep),
             _ => {
                 eprintln!("unknown property {id}");
